@@ -136,7 +136,7 @@ Qed.
 (* the ops of a run of plain ops in the pre-order list *)
 Lemma in_flat_mids par pf py : forall mids y,
   (forall s, In s mids -> exists m im, s = CLeaf m im) -> In y (flatl par pf py mids) ->
-  exists m im, In (CLeaf m im) mids /\ (y = mk par pf py m \/ In y (map (mk (n_id m) false 0) im)).
+  exists m im, In (CLeaf m im) mids /\ (y = mk par pf py m \/ In y (imap im)).
 Proof.
   induction mids as [|s r IH]; intros y Hl Hy; [destruct Hy|].
   destruct (Hl s (or_introl eq_refl)) as [m [im ->]]. cbn [flatl flat1] in Hy.
@@ -168,25 +168,25 @@ Section Main.
   (* after an op x, along a run of plain ops up to an op t that x put on the pending list, a barrier
      exists or is inserted: at one of the plain ops, or before t *)
   Lemma run_has_barrier par pf py l1 n inner mids t l3 :
-    flat = l1 ++ mk par pf py n :: (map (mk (n_id n) false 0) inner ++ flatl par pf py mids) ++ t :: l3 ->
+    flat = l1 ++ mk par pf py n :: (imap inner ++ flatl par pf py mids) ++ t :: l3 ->
     In (oi_id t) (adds flat (mk par pf py n)) ->
     inner_inert flat n inner = true ->
     (forall s, In s mids -> exists m im, s = CLeaf m im /\ inner_inert flat m im = true) ->
     (exists m im, In (CLeaf m im) mids /\ (is_sync (mk 0 false 0 m) = true \/ In (n_id m) bars)) \/ In (oi_id t) bars.
   Proof.
     intros E Hadd Hin Hm.
-    set (x := mk par pf py n) in *. set (l2 := map (mk (n_id n) false 0) inner ++ flatl par pf py mids) in *.
+    set (x := mk par pf py n) in *. set (l2 := imap inner ++ flatl par pf py mids) in *.
     assert (Hl2 : forall y, In y l2 -> In y flat).
     { intros y Hy. rewrite E. apply in_or_app. right. right. apply in_or_app. left. exact Hy. }
     assert (Hcase : forall y, In y l2 ->
               (exists m im, In (CLeaf m im) mids /\ y = mk par pf py m) \/ inert flat y = true).
     { intros y Hy. unfold l2 in Hy. apply in_app_or in Hy as [Hy|Hy].
-      - right. unfold inner_inert in Hin. rewrite forallb_forall in Hin. apply in_map_iff in Hy as [i [<- Hi]]. apply Hin. exact Hi.
+      - right. unfold inner_inert in Hin. rewrite forallb_forall in Hin. apply Hin. exact Hy.
       - destruct (in_flat_mids par pf py mids y) as [m [im [Hmi Hw]]]; [|exact Hy|].
         { intros s Hs. destruct (Hm s Hs) as [m [im [-> _]]]. eauto. }
         destruct Hw as [->|Hw]; [left; exists m, im; split; [exact Hmi | reflexivity]|].
         right. destruct (Hm _ Hmi) as [m' [im' [Em Hi']]]. inversion Em; subst m' im'.
-        unfold inner_inert in Hi'. rewrite forallb_forall in Hi'. apply in_map_iff in Hw as [i [<- Hi]]. apply Hi'. exact Hi. }
+        unfold inner_inert in Hi'. rewrite forallb_forall in Hi'. apply Hi'. exact Hw. }
     destruct (barrier_between_flat flat l1 x l2 t l3 E Hadd) as [[y [Hy Hs]]|[y [Hy Hb]]].
     - left. destruct (Hcase y Hy) as [[m [im [Hmi ->]]]|Hi].
       + exists m, im. split; [exact Hmi | left; exact Hs].
@@ -228,8 +228,8 @@ Section Main.
     intros E Hf Hms Hin Hr.
     destruct (fwd_some U r u Hf) as [mids [iu [rest [-> [Hu Hmids]]]]].
     rewrite outl_app, <- app_assoc. apply bar_mids; [exact Hmids|].
-    assert (E' : flat = A ++ mk par pf py n :: (map (mk (n_id n) false 0) inner ++ flatl par pf py mids) ++
-                      mk par pf py u :: (map (mk (n_id u) false 0) iu ++ flatl par pf py rest ++ C)).
+    assert (E' : flat = A ++ mk par pf py n :: (imap inner ++ flatl par pf py mids) ++
+                      mk par pf py u :: (imap iu ++ flatl par pf py rest ++ C)).
     { rewrite E. cbn [flatl flat1]. rewrite flatl_app. cbn [flatl flat1].
       repeat (rewrite <- app_assoc; cbn [app]). reflexivity. }
     destruct (run_has_barrier par pf py A n inner mids (mk par pf py u) _ E') as [Hw|Hb].
@@ -257,7 +257,7 @@ Section Main.
     pose proof (fwd_none_leaves U r Hal Hf) as Hmids.
     apply bar_mids; [exact Hmids|].
     assert (E' : flat = (A ++ flatl par true py pre) ++ mk par true py n ::
-                        (map (mk (n_id n) false 0) inner ++ flatl par true py r) ++ yld :: R').
+                        (imap inner ++ flatl par true py r) ++ yld :: R').
     { rewrite E. rewrite flatl_app. cbn [flatl flat1]. repeat (rewrite <- app_assoc; cbn [app]). reflexivity. }
     destruct (run_has_barrier par true py _ n inner r yld R' E') as [Hw|Hb].
     - rewrite Hy. change py with (oi_pyield (mk par true py n)).
